@@ -77,7 +77,33 @@ fn check_until(a: i128, b: i128, largest: Unit, fails: &mut Vec<Failure>) {
     }
 }
 
+/// Instant until / since: the exact difference for every pair of representable instants (up to 2 x 8.64e21 ns apart)
+fn check_instant_until(a: i128, b: i128, largest: Unit, fails: &mut Vec<Failure>) {
+    let (Ok(ia), Ok(ib)) = (Instant::try_new(a), Instant::try_new(b)) else { return };
+    for since in [false, true] {
+        let mut s = DifferenceSettings::default();
+        s.largest_unit = Some(largest);
+        let want = if since { a - b } else { b - a };
+        let input = format!("Instant({a}).{}(Instant({b}), largest={largest:?})", if since { "since" } else { "until" });
+        match catch_unwind(|| if since { ia.since(&ib, s) } else { ia.until(&ib, s) }) {
+            Ok(Ok(d)) => {
+                let f = [d.hours().as_inner(), d.minutes().as_inner(), d.seconds().as_inner(), d.milliseconds().as_inner(), d.microseconds().as_inner(), d.nanoseconds().as_inner()];
+                // fields above 2^53 are not exactly representable: compare only when the top field is
+                let tot = f[0] as i128 * 3_600_000_000_000 + f[1] as i128 * 60_000_000_000 + f[2] as i128 * 1_000_000_000 + f[3] as i128 * 1_000_000 + f[4] as i128 * 1000 + f[5] as i128;
+                let top_exact = f.iter().all(|x| x.abs() < 9_007_199_254_740_992.0);
+                if top_exact && tot != want { fails.push(Failure { what: "Instant until/since total".into(), input, expected: format!("{want}"), observed: format!("{tot} {f:?}") }); }
+            }
+            Ok(Err(_)) => fails.push(Failure { what: "Instant until/since refused two representable instants".into(), input, expected: format!("{want}"), observed: "Err".into() }),
+            Err(_) => fails.push(Failure { what: "Instant until/since panicked".into(), input, expected: format!("{want}"), observed: "panic".into() }),
+        }
+    }
+}
+
 pub fn search(rng: &mut Rng, budget: u64, fails: &mut Vec<Failure>) {
+    for (a, b) in [(-NS_MAX, NS_MAX), (NS_MAX, -NS_MAX), (-5_184_000_000_000_000_000_000i128, 3_456_000_000_000_000_000_000 + 3_600_000_000_000), (0, NS_MAX), (-NS_MAX, 1)] {
+        for lu in [Unit::Hour, Unit::Second] { check_instant_until(a, b, lu, fails); }
+        if fails.len() >= 5 { return; }
+    }
     let borrow: [[i64; 6]; 8] = [[0, 0, 0, 0, 1, 0], [0, 0, 0, 0, 0, 1], [0, 0, 0, 1, 0, 0], [0, 0, 1, 0, 0, 0], [0, 1, 0, 0, 0, 0], [1, 0, 0, 0, 0, 0], [0, 0, 0, 0, 1001, 1], [25, 61, 61, 1001, 1001, 1001]];
     for ns in [0i128, 1, 999, 1000, 43_200_000_000_000, NS_DAY - 1] {
         for f in borrow { check_time(ns, f, fails); if fails.len() >= 5 { return; } }
